@@ -3,6 +3,73 @@
 use crate::enc::*;
 use chess::*;
 
+const SQ_CONSTS: [Square; 64] = [
+    Square::A1,
+    Square::B1,
+    Square::C1,
+    Square::D1,
+    Square::E1,
+    Square::F1,
+    Square::G1,
+    Square::H1,
+    Square::A2,
+    Square::B2,
+    Square::C2,
+    Square::D2,
+    Square::E2,
+    Square::F2,
+    Square::G2,
+    Square::H2,
+    Square::A3,
+    Square::B3,
+    Square::C3,
+    Square::D3,
+    Square::E3,
+    Square::F3,
+    Square::G3,
+    Square::H3,
+    Square::A4,
+    Square::B4,
+    Square::C4,
+    Square::D4,
+    Square::E4,
+    Square::F4,
+    Square::G4,
+    Square::H4,
+    Square::A5,
+    Square::B5,
+    Square::C5,
+    Square::D5,
+    Square::E5,
+    Square::F5,
+    Square::G5,
+    Square::H5,
+    Square::A6,
+    Square::B6,
+    Square::C6,
+    Square::D6,
+    Square::E6,
+    Square::F6,
+    Square::G6,
+    Square::H6,
+    Square::A7,
+    Square::B7,
+    Square::C7,
+    Square::D7,
+    Square::E7,
+    Square::F7,
+    Square::G7,
+    Square::H7,
+    Square::A8,
+    Square::B8,
+    Square::C8,
+    Square::D8,
+    Square::E8,
+    Square::F8,
+    Square::G8,
+    Square::H8,
+];
+
 fn h(b: BitBoard) -> String {
     hx(b.0)
 }
@@ -89,6 +156,16 @@ fn tbl_eval(name: &str, a: &[&str]) -> Option<String> {
         "rsq2cr" => d(CastleRights::rook_square_to_castle_rights(s0()?).to_index()),
         "toint" => d(s0()?.to_int() as usize),
         "sqdefault" => d(Square::default().to_index()),
+        "sqconst" => d(SQ_CONSTS[num(a, 0, 64)?].to_index()),
+        "allsq" => d(ALL_SQUARES[num(a, 0, 64)?].to_index()),
+        "allfiles" => d(ALL_FILES[num(a, 0, 8)?].to_index()),
+        "allranks" => d(ALL_RANKS[num(a, 0, 8)?].to_index()),
+        "allpieces" => d(ALL_PIECES[num(a, 0, 6)?].to_index()),
+        "allcolors" => d(ALL_COLORS[num(a, 0, 2)?].to_index()),
+        "allcr" => d(ALL_CASTLE_RIGHTS[num(a, 0, 4)?].to_index()),
+        "promo" => d(PROMOTION_PIECES[num(a, 0, 4)?].to_index()),
+        "nums" => format!("{},{},{},{},{},{},{}", NUM_SQUARES, NUM_FILES, NUM_RANKS, NUM_PIECES, NUM_COLORS, NUM_CASTLE_RIGHTS, NUM_PROMOTION_PIECES),
+        "empty" => h(EMPTY),
         "tosize" => d(bb(hexa(a, 0)?).to_size(num(a, 1, 64)? as u8)),
         _ => return None,
     })
